@@ -11,6 +11,11 @@ Lemma drain_assigns_all : forall o, drain_assigns o = true.
 Proof. intros []; reflexivity. Qed.
 Lemma put_no_deadline_ok : ConstsQueue.put_no_deadline = true. Proof. reflexivity. Qed.
 Lemma get_no_deadline_ok : ConstsQueue.get_no_deadline = true. Proof. reflexivity. Qed.
+(* put/get/get_until notify a waiter of the other side on every successful push/pop (regenerated source audit) *)
+Lemma notify_one_ok : ConstsQueue.put_notify_one_unconditional = true /\ ConstsQueue.get_notify_one_unconditional = true /\
+  ConstsQueue.get_until_notify_one_unconditional = true.
+Proof. repeat split; reflexivity. Qed.
+
 Lemma close_notify_all_ok : ConstsQueue.close_notify_all_full = true /\ ConstsQueue.close_notify_all_empty = true.
 Proof. split; reflexivity. Qed.
 
